@@ -1,6 +1,7 @@
 (* C09 — remote ports: whitelisted, exclusive, truthfully reported, quota-bounded.
    Only statements here; proofs live in Proofs/PortsProofs.v and Proofs/PortSrvProofs.v. *)
-From FRP Require Import Model.Ports Model.PortSrv Proofs.PortsProofs Proofs.PortSrvProofs.
+From FRP Require Import Model.Ports Model.PortSrv Model.PortSched Proofs.PortsProofs Proofs.PortSrvProofs
+  Proofs.PortOwnProofs Proofs.PortSchedProofs.
 Open Scope Z_scope.
 
 (* ---- the port manager (server/ports/ports.go) ---- *)
@@ -151,16 +152,85 @@ Theorem C09_layered_accounting : forall maxp ranges ops s,
 Proof. exact layered_accounting. Qed.
 Print Assumptions C09_layered_accounting.
 
-Theorem C09_reported_addr_is_bound_addr : forall r q r' id real,
-  px_run r q = Some (r', XOk id real) ->
+(* the address returned by EVERY successful registration, in every reachable state — plain tcp, udp, first
+   and later members of a group — is an address this server listens on *)
+Theorem C09_reported_addr_is_bound_addr : forall maxp ranges ops s c q s' id real,
+  y_run maxp ops (srv_new ranges) = Some s ->
+  y_register maxp s c q = Some (s', YOk id real) ->
   match xq_kind q with
-  | KUdp => In (1, real) (rc_bound r')
-  | KTcp => In (0, real) (rc_bound r') \/
-            exists tg, sget (xq_group q) (rc_groups r) = Some tg /\ tg_lns tg <> [] /\ real = tg_real tg
+  | KTcp => In (0, real) (rc_bound (s_rc s'))
+  | KUdp => In (1, real) (rc_bound (s_rc s'))
   | KOther => True
   end.
-Proof. exact reported_addr_is_bound_addr. Qed.
+Proof. exact registered_addr_is_bound. Qed.
 Print Assumptions C09_reported_addr_is_bound_addr.
+
+(* step form, under the ownership invariant *)
+Theorem C09_reported_addr_is_bound_addr_step : forall r q r' id real,
+  OInv r -> px_run r q = Some (r', XOk id real) ->
+  match xq_kind q with
+  | KTcp => In (0, real) (rc_bound r')
+  | KUdp => In (1, real) (rc_bound r')
+  | KOther => True
+  end.
+Proof. exact reported_addr_is_bound_addr_full. Qed.
+Print Assumptions C09_reported_addr_is_bound_addr_step.
+
+(* ownership: live plain tcp proxies (by object) and live tcp groups (by name) claim pairwise distinct
+   ports, and every claimed port is bound *)
+Theorem C09_owners_hold_distinct_bound_ports : forall maxp ranges ops s,
+  y_run maxp ops (srv_new ranges) = Some s ->
+  (forall k p, claim (s_rc s) k p -> In (0, p) (rc_bound (s_rc s))) /\
+  (forall k k' p, claim (s_rc s) k p -> claim (s_rc s) k' p -> k = k').
+Proof. exact owners_hold_distinct_bound_ports. Qed.
+Print Assumptions C09_owners_hold_distinct_bound_ports.
+
+Theorem C09_reachable_states_satisfy_OInv : forall maxp ranges ops s,
+  y_run maxp ops (srv_new ranges) = Some s -> OInv (s_rc s).
+Proof. exact reachable_oinv. Qed.
+Print Assumptions C09_reachable_states_satisfy_OInv.
+
+(* progress: in a reachable state the model refuses a step only for one of the listed reasons — an
+   operation on a session that does not exist, a login under a session id in use, a "late close" of
+   something that is not a udp proxy object, a recorded random choice the code cannot make, a squatter
+   binding a busy port.  In particular CloseProxy and the session teardown are never refused: the states
+   "group listener not in its group" and "tcp proxy closed twice" are unreachable. *)
+Theorem C09_progress : forall maxp ranges ops s o,
+  y_run maxp ops (srv_new ranges) = Some s -> y_step maxp s o = None -> refusal_reason s o.
+Proof. exact progress. Qed.
+Print Assumptions C09_progress.
+
+Theorem C09_close_progress : forall r id o,
+  OInv r -> aget id (rc_objs r) = Some o -> (po_kind o <> KUdp -> po_closed o = false) ->
+  px_close r id <> None.
+Proof. exact px_close_progress. Qed.
+Print Assumptions C09_close_progress.
+
+(* ---- interleavings inside a registration (Model/PortSched.v) ---- *)
+(* every allowPorts, every set of register/close threads, EVERY schedule of their atomic steps mixed with
+   squatter activity, every oracle: partition invariant; no port listened on twice; every bound port is
+   allowed and recorded as used; no two threads hold the same port; at quiescence used = bound *)
+Theorem C09_sched_safe : forall ranges ths sched s,
+  fresh_threads ths -> ss_run sched (ss_init ranges ths) = Some s ->
+  PInv (pm_allowed ranges) (ss_pm s) /\
+  NoDup (ss_bound s) /\
+  (forall p, In p (ss_bound s) -> used_by (ss_pm s) p /\ In p (pm_allowed ranges)) /\
+  (forall t t' th th' p, aget t (ss_ths s) = Some th -> aget t' (ss_ths s) = Some th' ->
+      pc_held (st_pc th) = Some p -> pc_held (st_pc th') = Some p -> t = t') /\
+  (ss_quiescent s = true -> forall p, used_by (ss_pm s) p <-> In p (ss_bound s)).
+Proof. exact sched_safe. Qed.
+Print Assumptions C09_sched_safe.
+
+(* the window Acquire -> Listen: a port held by a registration that has not bound it yet is not granted to
+   anybody else, whatever is asked and whatever the probe says *)
+Theorem C09_held_port_not_granted : forall ranges ths sched s t th p t' th' s',
+  fresh_threads ths -> ss_run sched (ss_init ranges ths) = Some s ->
+  aget t (ss_ths s) = Some th -> pc_held (st_pc th) = Some p ->
+  t' <> t -> aget t' (ss_ths s) = Some th' -> st_pc th' = PAcquire ->
+  th_step s t' = Some s' ->
+  forall th2, aget t' (ss_ths s') = Some th2 -> pc_held (st_pc th2) <> Some p.
+Proof. exact held_port_not_granted. Qed.
+Print Assumptions C09_held_port_not_granted.
 
 Theorem C09_failed_registration_returns_ports : forall ranges r q r' e,
   XInv (pm_allowed ranges) r -> px_run r q = Some (r', XErr e) ->
